@@ -456,8 +456,15 @@ fn cmp(a: Num, b: Num) -> std::cmp::Ordering {
 
 fn case_numbers(t: &mut Tape, st: &mut Stats) -> Verdict {
     let mut ctx = sdk_context();
-    let a = Num { m: t.range(-1_000_000_000, 1_000_000_000), e: t.range(-3, 3) as i32 };
+    // one pair in six is of tiny magnitude (1e-22 .. 1e-6): few significant digits, so the two decimals are either
+    // equal as numbers or far apart relative to their size, whatever the absolute difference
+    let tiny = t.chance(1, 6);
+    let a = if tiny { Num { m: t.range(-999, 999), e: t.range(-22, -8) as i32 } } else { Num { m: t.range(-1_000_000_000, 1_000_000_000), e: t.range(-3, 3) as i32 } };
+    if tiny {
+        st.class("operands-of-tiny-magnitude");
+    }
     let b = match t.weighted(&[3, 3, 1]) {
+        0 if tiny => Num { m: t.range(-999, 999), e: a.e + t.range(-1, 1) as i32 },
         0 => Num { m: t.range(-1_000_000_000, 1_000_000_000), e: t.range(-3, 3) as i32 },
         1 => {
             st.class("operands-differ-in-last-digit");
@@ -689,7 +696,7 @@ fn case_kept(t: &mut Tape, st: &mut Stats) -> Verdict {
 pub fn property() -> Property {
     Property {
         id: "C16",
-        rule: "(substring-grid) EXHAUSTIVE: 12 strings of <= 6 bytes incl. 2-, 3- and 4-byte characters and combining marks x all forms (no index, one index, two indexes) x every index (pair) in [-len-2, len+2] plus non-numeric indexes; in-range requests on character boundaries must return the slice, out-of-domain requests the error result; (strings) random texts over ASCII/multi-byte alphabets with needles drawn as real substrings, longer than the haystack, unrelated or empty: length/indexof/last_indexof/contains/starts_with/ends_with/equals/is_empty/concat/replace/split/trim*/uppercase/lowercase against byte-level naive references, plus the relations substring(s,0,indexof(s,t))+t is a prefix of s, length of a slice, split joined by the separator gives s; (numbers) less_than/greater_than on exactly known decimal values in several spellings incl. pairs differing in the last digit and non-numeric operands; (calc) expression trees over + - * with parentheses, exact integer division and dyadic decimals compared exactly; (range) half-open interval, start>end and non-numeric rejected; (kept-results) 2..5 split / range calls in one script run writing to a pool of two output variables, each result kept under a further variable: at the end of the run every kept array still holds the pieces / interval of its own call. Non-trivial: multi-byte text or non-empty needle / index within the grid; distinct by arguments",
+        rule: "(substring-grid) EXHAUSTIVE: 12 strings of <= 6 bytes incl. 2-, 3- and 4-byte characters and combining marks x all forms (no index, one index, two indexes) x every index (pair) in [-len-2, len+2] plus non-numeric indexes; in-range requests on character boundaries must return the slice, out-of-domain requests the error result; (strings) random texts over ASCII/multi-byte alphabets with needles drawn as real substrings, longer than the haystack, unrelated or empty: length/indexof/last_indexof/contains/starts_with/ends_with/equals/is_empty/concat/replace/split/trim*/uppercase/lowercase against byte-level naive references, plus the relations substring(s,0,indexof(s,t))+t is a prefix of s, length of a slice, split joined by the separator gives s; (numbers) less_than/greater_than on exactly known decimal values in several spellings incl. pairs differing in the last digit, pairs of tiny magnitude (down to 1e-22, differing by as little as 1e-22) and non-numeric operands; (calc) expression trees over + - * with parentheses, exact integer division and dyadic decimals compared exactly; (range) half-open interval, start>end and non-numeric rejected; (kept-results) 2..5 split / range calls in one script run writing to a pool of two output variables, each result kept under a further variable: at the end of the run every kept array still holds the pieces / interval of its own call. Non-trivial: multi-byte text or non-empty needle / index within the grid; distinct by arguments",
         assumptions: &[
             "substring with an end index equal to the length (and a start index equal to the length in the one-index form) is left unconstrained",
             "values are free of '$', '%' and backslash; calc expressions avoid inexact division, overflow and mixed int/float division",
@@ -712,7 +719,7 @@ pub fn property() -> Property {
                     Tier::Thorough => Plan::Random { cases: 8_000_000, max_len: 20 },
                 },
                 case: case_numbers,
-                min_classes: &[("operands-differ-in-last-digit", 10000), ("non-numeric-operand", 1000)],
+                min_classes: &[("operands-differ-in-last-digit", 10000), ("non-numeric-operand", 1000), ("operands-of-tiny-magnitude", 10000)],
             },
             Section {
                 name: "calc",
